@@ -63,6 +63,15 @@ def sublattices(tier, seed):
             'cases': [{'traj': 'syn8', 'opt': list(c), 'pm': 'scaled-lto'} for c in combos],
         }
     )
+    # the same product with every option value spelled in capitals (values are case-insensitive; several option
+    # families share value strings such as NONE and FOA3)
+    subs.append(
+        {
+            'name': 'options x syn8 x option values in capitals',
+            'axes': {k: ec.OPTION_AXES[k] for k in keys},
+            'cases': [{'traj': 'syn8', 'opt': list(c), 'spell': 'upper'} for c in combos],
+        }
+    )
     # the same product with the other shipped fuel (no sulfur: constant indices that are exactly 0)
     subs.append(
         {
@@ -110,7 +119,7 @@ def _opts(case):
 
 def run_case(case):
     r = _run(case)
-    me = {k: case[k] for k in ('traj', 'opt', 'pm', 'fuel') if k in case}
+    me = {k: case[k] for k in ('traj', 'opt', 'pm', 'fuel', 'spell') if k in case}
     if r['violations'] and _STATE.get('prev') is not None:
         # configurations evaluated earlier in this worker (the first one and the one just before):
         # needed to replay violations caused by state that survives a configuration reload (caches)
@@ -171,10 +180,10 @@ def _run(case):
     pm, fuel = _STATE['pm'], _STATE['fuels'][fname]
     if case.get('pm') == 'scaled-lto':
         pm = ec.scaled_lto_pm()  # fresh per case: the case is self-contained
-    kind, res = ec.evaluate(opts, traj, fuel, pm, fuel_name=fname)
+    kind, res = ec.evaluate(opts, traj, fuel, pm, fuel_name=fname, spell=case.get('spell'))
     vio = []
     # a second computation with the same model under the SAME loaded configuration must end the same way
-    kind2, res2 = ec.evaluate(opts, traj, fuel, pm, fuel_name=fname, reload=False)
+    kind2, res2 = ec.evaluate(opts, traj, fuel, pm, fuel_name=fname, reload=False, spell=case.get('spell'))
     if kind != 'config-raise':
         a, b = _outcome_sig(kind, res), _outcome_sig(kind2, res2)
         if a != b:
